@@ -21,6 +21,27 @@
      * history_never_aborts / run_strict_eq : along a history of valid requests no step aborts,
                             and [run_all] coincides with the strict semantics in which Abort is
                             fatal.
+   Where the model can return None / Abort, and what excludes it (ginv, gclean = the invariant of
+   reachable graphs, HistoryProofs.gok; FamOK = contract of the operator family):
+     fwd   F1 fuel = 0                                   fuel = oid+1 and arguments have smaller ids (wf_ops)
+           F2 operator id not in ops_                    CHECK_NODE for the root, wf_ops for arguments
+           F3 return index not in rets                   CHECK_NODE for the root, wf_ops for arguments
+           F4 an argument's recursive call is None       induction (LazyProofs.fwd_fuel_enough)
+           F5 the operator vanished while its arguments were evaluated      sv is preserved
+           F6 forward returned no value for the requested output            FamOK: |f_fw| = f_retn = |rets|
+     forward / backward: get_slot = None                 this IS std::abort() of CHECK_NODE (kept)
+     sweep B1/B3/B6 operator k not in the list           k <= oid of the valid target; lengths preserved
+           G1/G2 an argument address not in the list     wf_ops
+           G3 an argument has no value and is not a Parameter operator (C++: get_inner_values() throws)
+                                                         gev: a gradient only sits on evaluated / Parameter
+                                                         operators, whose arguments are evaluated / Parameters (ginv)
+           B4 a Parameter operator without return value  an enabled operator has a return value
+           B5 an output of the operator has no value     gev + ginv: evaluated operators hold ALL outputs
+     run_cmd: no graph with that index                   not a request of the C++ API (no such object)
+              check_node out of range in add_operator    this IS std::abort() of CHECK_NODE (kept)
+   Not covered by the model at all (not an Abort, a limitation of the request language): forward /
+   backward with a node of ANOTHER graph (C++: Error "Graph mismatched"); an Error thrown by an
+   operator's own forward / backward (f_fw / f_bw are total; the harness' operators do not throw).
    Assumed of the operator family: FamOK only (forward assigns every output, forward_shape
    returns one shape per output, an operator with inner values takes no arguments).  f_fw / f_bw
    are total Coq functions: an operator's forward / backward has no Error / Abort outcome of its
